@@ -1068,7 +1068,7 @@ func parseGuard(a Atom, be *BigEval) (Guard, bool) {
 				if ts, ok := be.At[c]; ok && len(ts) >= 2 {
 					g.Bound = ts[1]
 					// if the subject side is the computed one (e.g. bound.Cmp(x)), swap
-					if ts[1].opaqueName() != "" && !ts[0].Top && ts[0].opaqueName() == "" {
+					if isPlainSym(ts[1]) && !ts[0].Top && !isPlainSym(ts[0]) {
 						g.Subject, g.SubjV = desc(c.Call.Args[1]), c.Call.Args[1]
 						g.Rel = relFlip[r]
 						g.Bound = ts[0]
@@ -1144,6 +1144,20 @@ func (g Guard) relBetween(subj string, bound Term) (string, bool) {
 		}
 	}
 	return "", false
+}
+
+// isPlainSym: the term is one uninterpreted value (a descriptor), not a computed expression or a function application.
+func isPlainSym(t Term) bool {
+	n := t.opaqueName()
+	if n == "" {
+		return false
+	}
+	if n[0] >= 'A' && n[0] <= 'Z' {
+		if i := strings.IndexByte(n, '('); i > 0 && !strings.ContainsAny(n[:i], ".:<[# ") {
+			return false // Exp(...), Mod(...), Rsh(...), GCD(...)
+		}
+	}
+	return true
 }
 
 func guardRank(d string) int {
